@@ -328,11 +328,85 @@ def optParamsWfb : Option ParamList → Bool
   | none => true
   | some ps => ps.wfb
 
+/-- a method name: `Name` or `Name#Event` -/
+inductive MName where
+  | plain (t : Tok)
+  | event (m p e : Tok)
+
+def MName.toks : MName → List Tok
+  | .plain t => [t]
+  | .event m p e => [m, p, e]
+
+def MName.tree : MName → Tree
+  | .plain t => terminal (.leaf t)
+  | .event m _ e =>
+    mk "method_name_w_event" (m.value ++ "#" ++ e.value) (Range.span m.rng e.rng) [terminal (.leaf m), terminal (.leaf e)]
+
+def MName.WF : MName → Prop
+  | .plain t => t.kind ∈ identKinds
+  | .event m p e => m.kind ∈ identKinds ∧ p.kind = Kind.Pound ∧ e.kind ∈ identKinds
+
+def MName.wfb : MName → Bool
+  | .plain t => identKinds.contains t.kind
+  | .event m p e => identKinds.contains m.kind && p.kind == Kind.Pound && identKinds.contains e.kind
+
+/-- a method modifier: `private` / `protected` / `final` / `override` / `forward`, or `external "lib"` -/
+inductive Mod where
+  | plain (t : Tok)
+  | ext (e s : Tok)
+
+def Mod.toks : Mod → List Tok
+  | .plain t => [t]
+  | .ext e s => [e, s]
+
+/-- the token `parse_method_modifiers` keeps: `external "lib"` becomes ONE StringLiteral token spanning both -/
+def Mod.leaf : Mod → Tok
+  | .plain t => t
+  | .ext e s => { s with rng := Range.span e.rng s.rng }
+
+/-- `forward` and `external` methods have no body -/
+def Mod.noBody : Mod → Bool
+  | .plain t => t.kind == Kind.Forward
+  | .ext _ _ => true
+
+def Mod.WF : Mod → Prop
+  | .plain t => t.kind ∈ memberModKinds ∨ t.kind = Kind.Forward
+  | .ext e s => e.kind = Kind.External ∧ s.kind = Kind.StringLiteral
+
+def Mod.wfb : Mod → Bool
+  | .plain t => memberModKinds.contains t.kind || t.kind == Kind.Forward
+  | .ext e s => e.kind == Kind.External && s.kind == Kind.StringLiteral
+
+def modsToks : List Mod → List Tok
+  | [] => []
+  | m :: rest => m.toks ++ modsToks rest
+
+def modsWF : List Mod → Prop
+  | [] => True
+  | m :: rest => m.WF ∧ modsWF rest
+
+def modsWfb : List Mod → Bool
+  | [] => true
+  | m :: rest => m.wfb && modsWfb rest
+
+/-- the attributes a method node carries: the token kinds of its modifiers -/
+def modsAttrs (ms : List Mod) : List String := ms.map (fun m => m.leaf.kind.name)
+
+/-- `method_modifiers`: spans the modifiers (not a child of the method: it only delimits it) -/
+def modsNode : List Mod → Option Tree
+  | [] => none
+  | m :: rest =>
+    some (mk "method_modifiers" "method_modifiers"
+      (Range.span m.leaf.rng (((m :: rest).getLast?).getD m).leaf.rng) [] (modsAttrs (m :: rest)))
+
+/-- a method has a body unless it is `forward` or `external` -/
+def hasBodyB (ms : List Mod) : Bool := !ms.any Mod.noBody
+
 inductive Decl (ε : Type) where
-  /-- `proc Name [(params)] … endproc` -/
-  | proc (kw name : Tok) (ps : Option ParamList) (body : List (Stmt ε)) (endT : Tok)
-  /-- `func Name [(params)] return T … endfunc` -/
-  | func (kw name : Tok) (ps : Option ParamList) (ret ty : Tok) (body : List (Stmt ε)) (endT : Tok)
+  /-- `proc Name [(params)] [modifiers] [… endproc]` -/
+  | proc (kw : Tok) (name : MName) (ps : Option ParamList) (mods : List Mod) (body : Option (List (Stmt ε) × Tok))
+  /-- `func Name [(params)] return T [modifiers] [… endfunc]` -/
+  | func (kw : Tok) (name : MName) (ps : Option ParamList) (ret ty : Tok) (mods : List Mod) (body : Option (List (Stmt ε) × Tok))
   /-- `const c = literal` -/
   | const (kw name eq lit : Tok)
   /-- `f : T` -/
@@ -344,9 +418,14 @@ def parentToks : Option (Tok × Tok × Tok) → List Tok
   | none => []
   | some (lp, p, rp) => [lp, p, rp]
 
+def bodyToks : Option (List (Stmt ε) × Tok) → List Tok
+  | none => []
+  | some (ss, endT) => Stmts.toks X ss ++ [endT]
+
 def Decl.toks : Decl ε → List Tok
-  | .proc kw name ps body endT => kw :: name :: (optParamsToks ps ++ (Stmts.toks X body ++ [endT]))
-  | .func kw name ps ret ty body endT => kw :: name :: (optParamsToks ps ++ ret :: ty :: (Stmts.toks X body ++ [endT]))
+  | .proc kw name ps mods body => kw :: (name.toks ++ (optParamsToks ps ++ (modsToks mods ++ bodyToks X body)))
+  | .func kw name ps ret ty mods body =>
+    kw :: (name.toks ++ (optParamsToks ps ++ ret :: ty :: (modsToks mods ++ bodyToks X body)))
   | .const kw name eq lit => [kw, name, eq, lit]
   | .field name colon ty => [name, colon, ty]
   | .cls kw name parent => kw :: name :: parentToks parent
@@ -357,16 +436,33 @@ def bodyTree (before : Range) (stmts : List Tree) : Tree :=
   | [] => mk "method_body" "method_body" before []
   | first :: _ => mk "method_body" "method_body" (Range.span first.rng (lastD stmts first).rng) stmts
 
+/-- a method node: it ends at its end token, or — without body — at the node before where the body would be
+    (`before`: modifiers | return type | parameters | name) -/
+def methodTree (kind : String) (kw : Tok) (name : Tree) (kids : List Tree) (before : Range) (attrs : List String)
+    (body : Option (List Tree × Tok)) : Tree :=
+  match body with
+  | some (stmts, endT) =>
+    mk kind name.ident (Range.span kw.rng endT.rng) (kids ++ [bodyTree before stmts]) attrs (some name.rng)
+  | none => mk kind name.ident (Range.span kw.rng before) kids attrs (some name.rng)
+
+def bodyTrees : Option (List (Stmt ε) × Tok) → Option (List Tree × Tok)
+  | none => none
+  | some (ss, endT) => some (Stmts.trees X ss, endT)
+
 def Decl.tree : Decl ε → Tree
-  | .proc kw name ps body endT =>
-    mk "proc_decl" name.value (Range.span kw.rng endT.rng)
-      ([terminal (.leaf name)] ++ optParamsTree ps ++
-        [bodyTree (match ps with | some p => p.tree.rng | none => name.rng) (Stmts.trees X body)])
-      [] (some name.rng)
-  | .func kw name ps _ ty body endT =>
-    mk "func_decl" name.value (Range.span kw.rng endT.rng)
-      ([terminal (.leaf name), typeBasic ty] ++ optParamsTree ps ++ [bodyTree ty.rng (Stmts.trees X body)])
-      [] (some name.rng)
+  | .proc kw name ps mods body =>
+    methodTree "proc_decl" kw name.tree ([name.tree] ++ optParamsTree ps)
+      (match modsNode mods, ps with
+       | some m, _ => m.rng
+       | none, some p => p.tree.rng
+       | none, none => name.tree.rng)
+      (modsAttrs mods) (bodyTrees X body)
+  | .func kw name ps _ ty mods body =>
+    methodTree "func_decl" kw name.tree ([name.tree, typeBasic ty] ++ optParamsTree ps)
+      (match modsNode mods with
+       | some m => m.rng
+       | none => ty.rng)
+      (modsAttrs mods) (bodyTrees X body)
   | .const kw name _ lit =>
     mk "const_decl" name.value (Range.span kw.rng lit.rng) [] ["value=" ++ lit.value] (some name.rng)
   | .field name _ ty => mk "gvar_decl" name.value (Range.span name.rng ty.rng) [typeBasic ty] [] (some name.rng)
@@ -387,13 +483,23 @@ def parentWfb : Option (Tok × Tok × Tok) → Bool
   | none => true
   | some (lp, p, rp) => lp.kind == Kind.OBracket && p.kind == Kind.Identifier && rp.kind == Kind.CBracket
 
+/-- the body of a method that ends with a token of kind `endK` (and may not contain `endK` or `end`);
+    a body is there exactly when no modifier says `forward` / `external` -/
+def bodyWF (endK : Kind) (mods : List Mod) : Option (List (Stmt ε) × Tok) → Prop
+  | none => hasBodyB mods = false
+  | some (ss, endT) =>
+    hasBodyB mods = true ∧ Stmts.WF X ss ∧ termFreeB [endK, Kind.End] (Stmts.toks X ss) = true ∧ endT.kind = endK
+
+def bodyWfb (endK : Kind) (mods : List Mod) : Option (List (Stmt ε) × Tok) → Bool
+  | none => !hasBodyB mods
+  | some (ss, endT) => hasBodyB mods && Stmts.wfb X ss && termFreeB [endK, Kind.End] (Stmts.toks X ss) && endT.kind == endK
+
 def Decl.WF : Decl ε → Prop
-  | .proc kw name ps body endT =>
-    kw.kind = Kind.Proc ∧ name.kind ∈ identKinds ∧ optParamsWF ps ∧ Stmts.WF X body ∧
-    termFreeB [Kind.EndProc, Kind.End] (Stmts.toks X body) = true ∧ endT.kind = Kind.EndProc
-  | .func kw name ps ret ty body endT =>
-    kw.kind = Kind.Func ∧ name.kind ∈ identKinds ∧ optParamsWF ps ∧ ret.kind = Kind.Return ∧ ty.kind = Kind.Identifier ∧
-    Stmts.WF X body ∧ termFreeB [Kind.EndFunc, Kind.End] (Stmts.toks X body) = true ∧ endT.kind = Kind.EndFunc
+  | .proc kw name ps mods body =>
+    kw.kind = Kind.Proc ∧ name.WF ∧ optParamsWF ps ∧ modsWF mods ∧ bodyWF X Kind.EndProc mods body
+  | .func kw name ps ret ty mods body =>
+    kw.kind = Kind.Func ∧ name.WF ∧ optParamsWF ps ∧ ret.kind = Kind.Return ∧ ty.kind = Kind.Identifier ∧
+    modsWF mods ∧ bodyWF X Kind.EndFunc mods body
   | .const kw name eq lit =>
     kw.kind = Kind.Const ∧ name.kind = Kind.Identifier ∧ eq.kind = Kind.Equals ∧
     lit.kind ∈ [Kind.StringLiteral, Kind.NumericLiteral]
@@ -401,13 +507,11 @@ def Decl.WF : Decl ε → Prop
   | .cls kw name parent => kw.kind = Kind.Class ∧ name.kind = Kind.Identifier ∧ parentWF parent
 
 def Decl.wfb : Decl ε → Bool
-  | .proc kw name ps body endT =>
-    kw.kind == Kind.Proc && identKinds.contains name.kind && optParamsWfb ps && Stmts.wfb X body &&
-    termFreeB [Kind.EndProc, Kind.End] (Stmts.toks X body) && endT.kind == Kind.EndProc
-  | .func kw name ps ret ty body endT =>
-    kw.kind == Kind.Func && identKinds.contains name.kind && optParamsWfb ps && ret.kind == Kind.Return &&
-    ty.kind == Kind.Identifier && Stmts.wfb X body && termFreeB [Kind.EndFunc, Kind.End] (Stmts.toks X body) &&
-    endT.kind == Kind.EndFunc
+  | .proc kw name ps mods body =>
+    kw.kind == Kind.Proc && name.wfb && optParamsWfb ps && modsWfb mods && bodyWfb X Kind.EndProc mods body
+  | .func kw name ps ret ty mods body =>
+    kw.kind == Kind.Func && name.wfb && optParamsWfb ps && ret.kind == Kind.Return && ty.kind == Kind.Identifier &&
+    modsWfb mods && bodyWfb X Kind.EndFunc mods body
   | .const kw name eq lit =>
     kw.kind == Kind.Const && name.kind == Kind.Identifier && eq.kind == Kind.Equals &&
     [Kind.StringLiteral, Kind.NumericLiteral].contains lit.kind
